@@ -254,9 +254,48 @@ type FileInput struct {
 
 var fileStems = []string{"", "a.b", "a-b", "a_", "A", "a.yang.b"}
 
+// nearMiss spells a module name that a careless comparison takes for stem: 1 - every '.', '-' and
+// '_' replaced by another of the three (a name without any gets a '_' appended), 2 - the case of
+// every letter swapped.
+func nearMiss(stem string, k int) string {
+	if stem == "" {
+		stem = "a"
+	}
+	if k == 2 {
+		return strings.Map(func(r rune) rune {
+			switch {
+			case r >= 'a' && r <= 'z':
+				return r - 32
+			case r >= 'A' && r <= 'Z':
+				return r + 32
+			}
+			return r
+		}, stem)
+	}
+	out := strings.Map(func(r rune) rune {
+		switch r {
+		case '.':
+			return '_'
+		case '-':
+			return '.'
+		case '_':
+			return '-'
+		}
+		return r
+	}, stem)
+	if out == stem {
+		out += "_"
+	}
+	return out
+}
+
 // actual maps a canonical name (file name or request) to the one used on disk.
 func (in FileInput) actual(fn string) string {
 	switch {
+	case strings.HasPrefix(fn, "NM1"):
+		return nearMiss(in.Stem, 1) + fn[3:]
+	case strings.HasPrefix(fn, "NM2"):
+		return nearMiss(in.Stem, 2) + fn[3:]
 	case in.Stem == "":
 		return fn
 	case strings.HasPrefix(fn, "xa"):
@@ -282,6 +321,9 @@ func fileContent(dir int, name, stem string) string {
 	mod := stem
 	if strings.HasPrefix(name, stem+"b") {
 		mod = stem + "b"
+	}
+	if !strings.HasPrefix(name, stem) {
+		mod = "other" // a near-miss file declares a module of another name
 	}
 	return fmt.Sprintf(`module %s { namespace "urn:%s"; prefix %s; description "d%d/%s"; }`, mod, mod, mod, dir, name)
 }
@@ -888,6 +930,36 @@ func run(c *core.Ctx) {
 									c.Sample(string(b))
 								}
 							}
+						}
+					}
+				}
+			}
+		}
+		// files of modules whose names a careless comparison takes for the requested one (another
+		// separator where it has '.', '-' or '_'; the other case), dated later than every candidate
+		if shard < len(fileStems) {
+			nmNames := []string{"a@2020-01-01.yang", "a.yang", "NM1@2024-01-01.yang", "NM2@2024-01-01.yang", "NM1.yang", "NM2.yang"}
+			nm2 := []string{"a@2021-06-30.yang", "NM1@2024-01-01.yang", "NM2.yang"}
+			for _, stem := range fileStems[shard : shard+1] {
+				for m1 := 0; m1 < 1<<len(nmNames); m1++ {
+					for m2 := 0; m2 < 1<<len(nm2); m2++ {
+						if c.Expired() {
+							return
+						}
+						in := FileInput{Dirs: [][]string{nil, subsets(nmNames, m1), subsets(nm2, m2)}, Request: "a", Stem: stem, Links: (m1+m2)%5 == 0}
+						caseNo, run := c.Begin()
+						if c.Skip(caseNo, run, Input{File: &in}) {
+							continue
+						}
+						c.Exec()
+						c.Validate()
+						c.Edge(1)
+						c.StateN(1)
+						c.NontrivialN(1)
+						if f := checkFile(e, in); f != nil {
+							report(caseNo, Input{File: &in}, f)
+						} else {
+							c.Outcome("chooser-as-required:near-miss-names")
 						}
 					}
 				}
